@@ -767,7 +767,10 @@ class TT():
         elif isinstance(other, int) or isinstance(other, float) or isinstance(other, complex) or isinstance(other, tn.Tensor) or isinstance(other, np.number):
             if (tn.is_tensor(other) and other.requires_grad) or any([c.requires_grad for c in self.cores]) or other != 0:
                 cores_new = [c+0 for c in self.cores]
-                cores_new[0] *= other
+                cores_new[0] = cores_new[0] * other
+                if cores_new[0].dtype != self.cores[0].dtype:
+                    # the scalar promoted the dtype (e.g. real tensor times complex scalar): keep all cores of one dtype
+                    cores_new = [c.to(cores_new[0].dtype) for c in cores_new]
                 result = TT(cores_new)
             else:
                 result = TT([tn.zeros((1, self.M[i], self.N[i], 1) if self.is_ttm else (
